@@ -586,9 +586,9 @@ Proof.
   pose proof (osub_exact 64 (e_lvl E) prevlvl) as Hs. rewrite M64 in Hs. specialize (Hs Hl Hprev).
   destruct (osub 64 (e_lvl E) prevlvl) as [rpu o1]. cbn [fst snd] in Hs.
   destruct o1; [discriminate|]. destruct Hs as [_ Hs]. destruct (Hs eq_refl) as [Hrpu Hle].
-  set (c0 := mkCow layer0 [] b) in *.
-  assert (Hw0 : wfc E (base_cow b)).
-  { intro a. rewrite lookup_base_cow. destruct (Hwf a). split; [assumption|lia]. }
+  change (mkCow layer0 [] b) with (base_cow b) in H. set (c0 := base_cow b) in *.
+  assert (Hw0 : wfc E c0).
+  { intro a. unfold c0. rewrite lookup_base_cow. destruct (Hwf a). split; [assumption|lia]. }
   destruct (with_rewards (e_P E) (e_lvl E) (lookup c0 (e_pool E))) as [poolOld|e] eqn:Hwr; [|discriminate].
   destruct (Hw0 (e_pool E)) as [Ha Hb].
   destruct (with_rewards_ok _ _ _ _ Hu Ha Hb Hl Hwr) as (N1 & N2 & N3 & N4 & N5 & N6).
@@ -614,10 +614,9 @@ Proof.
   split.
   - apply wfc_put; auto; unfold x2; cbn [set_algos set_money a_algos a_rbase]; lia.
   - pose proof (tot_put E U HU c0 (e_pool E) x2 Hpool) as Ht. rewrite Hbx, <- N1 in Ht.
-    pose proof (level_shift (e_P E) U (base_cow b) prevlvl (e_lvl E) Hle) as Hsh.
-    rewrite Hsh in * by (intros a _; rewrite lookup_base_cow; apply Hwf).
-    unfold tot in *. unfold tot_at in *. fold c0 in Hsh. unfold base_cow in *. fold c0 in Hrueq |- *.
-    rewrite <- Hrueq in *. nia.
+    pose proof (level_shift (e_P E) U c0 prevlvl (e_lvl E) Hle) as Hsh.
+    assert (Hrb : forall a, In a U -> a_rbase (lookup c0 a) <= prevlvl) by (intros a _; apply Hwf).
+    specialize (Hsh Hrb). unfold tot in *. unfold tot_at in *. rewrite <- Hrueq in Hsh. nia.
 Qed.
 
 (* ------------------------------------------------------------------ a whole block *)
